@@ -350,6 +350,102 @@ theorem queues_rewritten_unbonding_index {s s' : State} {frm to : Addr} {sigOk :
     have := entriesOf_of_get s.ubds frm v es hg
     simp only [this, ↓reduceIte, true_or]
 
+
+/-! ## never_reused -/
+
+/-- every operation keeps existing migration records -/
+theorem records_kept (s : State) (op : Op) (a : Addr) (h : (get s.recs a).isSome = true) :
+    (get (step cfg s op).1.recs a).isSome = true := by
+  have keep : ∀ (o : Option State), (∀ s', o = some s' → s'.recs = s.recs) → (get (ofOpt s o).1.recs a).isSome = true := by
+    intro o ho
+    cases o with
+    | none => exact h
+    | some s' => simp only [ofOpt]; rw [ho s' rfl]; exact h
+  cases op with
+  | send x y d n =>
+    simp only [step]
+    apply keep
+    intro s' hs
+    cases hb : sendCoins s.bal x y d n <;> simp [hb] at hs
+    subst hs; rfl
+  | mint x d n => exact h
+  | delegate d v amt rw => exact keep _ (fun s' hs => delegate_recs hs)
+  | undelegate d v amt rw => exact keep _ (fun s' hs => undelegate_recs hs)
+  | redelegate d x y amt r1 r2 => exact keep _ (fun s' hs => redelegate_recs hs)
+  | withdraw d v rw => exact keep _ (fun s' hs => withdraw_recs hs)
+  | setWithdraw d w => exact h
+  | submit x dep => exact keep _ (fun s' hs => submit_recs hs)
+  | deposit x id amt => exact keep _ (fun s' hs => deposit_recs hs)
+  | vote x id => exact keep _ (fun s' hs => vote_recs hs)
+  | block dt => simp only [step]; rw [endBlock_recs]; exact h
+  | migrate f t sg =>
+    simp only [step]
+    cases hm : migrate cfg s f t sg with
+    | error e => exact h
+    | ok s' =>
+      obtain ⟨_, _, _, _, _, _, _, rfl⟩ := migrate_ok_inv hm
+      show (get (put (put _ f (true, t)) t (false, f)) a).isSome = true
+      by_cases h1 : a = t
+      · subst h1; rw [get_put_eq]; rfl
+      · rw [get_put_ne _ _ _ _ h1]
+        by_cases h2 : a = f
+        · subst h2; rw [get_put_eq]; rfl
+        · rw [get_put_ne _ _ _ _ h2]
+          have hrec : (stakingExecute cfg (bankExecute s f t) f t).recs = s.recs := by
+            unfold stakingExecute
+            refine (foldl_keep (fun s : State => s.recs) _ (fun s p => by
+              unfold moveRed; exact foldl_keep (fun s : State => s.recs) _ (by intros; rfl) _ _) _ _).trans ?_
+            refine (foldl_keep (fun s : State => s.recs) _ (fun s p => by
+              unfold moveUbd; exact foldl_keep (fun s : State => s.recs) _ (by intros; rfl) _ _) _ _).trans ?_
+            exact foldl_keep (fun s : State => s.recs) _ (by intros; rfl) _ _
+          rw [hrec]; exact h
+
+theorem records_kept_run (s : State) (ops : List Op) (a : Addr) (h : (get s.recs a).isSome = true) :
+    (get (run cfg s ops).recs a).isSome = true := by
+  induction ops generalizing s with
+  | nil => exact h
+  | cons op ops ih => exact ih _ (records_kept s op a h)
+
+/-- **never_reused**: once a migration of `frm` to `to` was accepted, then after any later history, every migration
+whose source or target is `frm` or `to` is rejected -/
+theorem never_reused {s s' : State} {frm to : Addr} {sigOk : Bool} (h : migrate cfg s frm to sigOk = .ok s')
+    (later : List Op) (a b : Addr) (sg : Bool) (hab : a = frm ∨ a = to ∨ b = frm ∨ b = to) :
+    ∀ s'', migrate cfg (run cfg s' later) a b sg ≠ .ok s'' := by
+  intro s'' h2
+  obtain ⟨hne, _, _, _, _, _, _, rfl⟩ := migrate_ok_inv h
+  have hf : (get (moved s frm to).recs frm).isSome = true := by
+    show (get (put (put _ frm (true, to)) to (false, frm)) frm).isSome = true
+    rw [get_put_ne _ _ _ _ hne, get_put_eq]; rfl
+  have ht : (get (moved s frm to).recs to).isSome = true := by
+    show (get (put (put _ frm (true, to)) to (false, frm)) to).isSome = true
+    rw [get_put_eq]; rfl
+  have hf' := records_kept_run _ later frm hf
+  have ht' := records_kept_run _ later to ht
+  obtain ⟨_, _, ha, hb, _⟩ := migrate_ok_inv h2
+  rcases hab with rfl | rfl | rfl | rfl
+  · rw [ha] at hf'; cases hf'
+  · rw [ha] at ht'; cases ht'
+  · rw [hb] at hf'; cases hf'
+  · rw [hb] at ht'; cases ht'
+
+/-! ## later_behaviour_equal -/
+
+/-- **later_behaviour_equal** (undelegate): whatever amount the source could have undelegated from a validator before the
+migration, the target can undelegate afterwards — the operation is accepted under the same conditions (shares, entry
+count of the moved unbonding delegation, starting info) -/
+theorem later_behaviour_equal_records {s s' : State} {frm to : Addr} {sigOk : Bool}
+    (h : migrate cfg s frm to sigOk = .ok s') (v : Val) :
+    get s'.dels (to, v) = get s.dels (frm, v) ∧ get s'.ubds (to, v) = get s.ubds (frm, v) ∧
+    get s'.dels (frm, v) = none ∧ get s'.ubds (frm, v) = none := by
+  have hne := (migrate_ok_inv h).1
+  have h1 := portfolio_moved_delegations h
+  have h2 := portfolio_moved_unbonding h
+  refine ⟨?_, ?_, ?_, ?_⟩
+  · rw [h1]; simp
+  · rw [h2]; simp
+  · rw [h1]; simp [hne]
+  · rw [h2]; simp [hne]
+
 /-- involvement of `a` in proposal `id`: proposer, depositor, or (for proposals in the voting period) voter -/
 def involvedDeposit (s : State) (a : Addr) (id : Nat) : Prop :=
   (∃ pr, get s.props id = some pr ∧ pr.proposer = a) ∨ (get s.deposits (id, a)).isSome = true
@@ -385,5 +481,38 @@ theorem refused_while_in_open_proposal (s : State) (frm to a : Addr) (sigOk : Bo
     rcases hi with hi | hv
     · simp [hdep id hi]
     · rcases ha with rfl | rfl <;> simp [hv]
+
+
+/-! ## non-vacuity -/
+
+/-- a portfolio: balances in two denoms, delegations to two validators, an unbonding delegation sharing its completion
+time with another delegator, a redelegation; account 2 is proposer of a proposal still in its deposit period -/
+def exState : State :=
+  { now := 10, vals := [100, 101, 102], hasKey := [1, 2],
+    bal := [((1, 0), 500), ((1, 1), 7), ((11, 0), 3), ((2, 0), 50)],
+    dels := [((1, 100), 90), ((1, 102), 20), ((2, 100), 70)], delIdx := [(100, 1), (102, 1), (100, 2)],
+    startInfo := [((100, 1), (3, 90)), ((102, 1), (2, 20)), ((100, 2), (2, 70))],
+    ubds := [((1, 100), [(305, 10, 1)]), ((2, 100), [(305, 10, 2)])], ubdIdx := [(100, 1), (100, 2)],
+    ubdQ := [(305, [(1, 100), (2, 100)])],
+    reds := [((1, 101, 102), [(305, 20, 3)])], redSrcIdx := [(101, 1, 102)], redDstIdx := [(102, 1, 101)],
+    redQ := [(305, [(1, 101, 102)])], unbId := [(1, (1, 100, none)), (2, (2, 100, none)), (3, (1, 101, some 102))],
+    props := [(1, { proposer := 2, status := 0, depEnd := 210, voteEnd := 0, total := 10 })],
+    deposits := [((1, 2), 10)], inactiveQ := [(210, 1)] }
+
+/-- the migration of account 1 to 11 is accepted (hypotheses of the theorems above are satisfiable) … -/
+example : ∃ s', migrate cfg exState 1 11 true = .ok s' ∧ get s'.dels (11, 100) = some 90 ∧
+    get s'.ubds (11, 100) = some [(305, 10, 1)] ∧ get s'.ubdQ 305 = some [(11, 100), (2, 100)] ∧
+    (100, 11) ∈ s'.delIdx ∧ (100, 1) ∉ s'.delIdx ∧ balOf s'.bal 11 0 = 503 ∧ balOf s'.bal 1 0 = 0 :=
+  ⟨_, rfl, by decide, by decide, by decide, by decide, by decide, by decide, by decide⟩
+
+/-- … while account 2, proposer and depositor of the proposal in its deposit period (end time 210 > now 10), is refused,
+and so is a validator operator, a missing signature, and a second use of 11 -/
+example : migrate cfg exState 2 12 true = .error .gov := rfl
+example : migrate cfg exState 100 12 true = .error .account := rfl
+example : migrate cfg { exState with hasKey := [100] } 100 12 true = .error .validator := rfl
+example : migrate cfg exState 1 11 false = .error .sig := rfl
+example : migrate cfg exState 1 2 true = .error .toStaking := rfl
+example : (2 = 2 ∨ 2 = 12) ∧ ((210, 1) ∈ exState.inactiveQ ∧ involvedDeposit exState 2 1) :=
+  ⟨Or.inl rfl, by decide, Or.inl ⟨_, rfl, rfl⟩⟩
 
 end FxVerif.Props.C14
